@@ -431,3 +431,131 @@ def returns_ast(ctx: TermCtx, fi: FuncInfo) -> bool:
         return False
 
     return is_ast(rt)
+
+
+# ---------------------------------------------------------------------------------- role-based discovery
+def private_callees(model: Model, fi: FuncInfo) -> List[FuncInfo]:
+    """package functions / methods called from fi that are private helpers: nested in fi, underscore-named
+    functions of the same module, or underscore-named methods of the same class."""
+    out: List[FuncInfo] = []
+    for c in calls_in(fi):
+        g = None
+        f = c.func
+        if isinstance(f, ast.Name):
+            tgt = model.lookup_target(model.resolve_dotted(fi.module, fi, f.id))
+            g = tgt if isinstance(tgt, FuncInfo) else None
+        elif isinstance(f, ast.Attribute) and isinstance(f.value, ast.Name) and fi.cls is not None and fi.pos_params and f.value.id == fi.pos_params[0]:
+            g = model.find_method(fi.cls, f.attr)
+        if g is None or g is fi or g in out:
+            continue
+        nested = g.parent_func is fi
+        private_fn = g.module is fi.module and g.name.startswith("_") and not g.name.startswith("__")
+        if nested or private_fn:
+            out.append(g)
+    return out
+
+
+def unit(model: Model, fi: FuncInfo, depth: int = 3) -> List[FuncInfo]:
+    """fi together with the private helpers it (transitively) calls - the granularity at which "this
+    function does X" is judged, so that extracting a helper does not change a verdict."""
+    seen: List[FuncInfo] = [fi]
+    frontier = [fi]
+    for _ in range(depth):
+        nxt = []
+        for f in frontier:
+            for g in private_callees(model, f):
+                if g not in seen:
+                    seen.append(g)
+                    nxt.append(g)
+        frontier = nxt
+    return seen
+
+
+def unit_nodes(model: Model, fi: FuncInfo, depth: int = 3):
+    for f in unit(model, fi, depth):
+        for n in own_nodes(f):
+            yield f, n
+
+
+def used_visitor(model: Model, ctx: TermCtx, fi: FuncInfo, want_transformer: Optional[bool] = None) -> "ClassInfo":
+    """The visitor / transformer class whose instance fi (or its private helpers) applies with .visit(..):
+    found through the provenance term of the receiver, so it does not matter whether the class is nested in fi,
+    lives at module level, or how it is called."""
+    from .model import ClassInfo
+
+    found: List[ClassInfo] = []
+    for f in unit(model, fi):
+        fa = ctx.analysis(f)
+        for c in calls_in(f):
+            if isinstance(c.func, ast.Attribute) and c.func.attr == "visit" and c.args and fa.cfg.has_node(c):
+                t = strip_sites(fa.term_of(c))
+                if t[0] == "tvisit":
+                    ci = model.classes.get(t[1])
+                    if ci is not None and ci not in found:
+                        found.append(ci)
+    # nested classes defined inside the unit are candidates too (instantiated through a local name)
+    if not found:
+        for f in unit(model, fi):
+            for ci in model.classes.values():
+                if ci.parent_func is f and model.is_visitor(ci) and ci not in found:
+                    found.append(ci)
+    if want_transformer is not None:
+        found = [c for c in found if model.is_transformer(c) == want_transformer] or found
+    if len(found) != 1:
+        raise AnalysisError(f"cannot identify the visitor class applied by {fi.name} ({[c.name for c in found]})")
+    return found[0]
+
+
+class Event:
+    __slots__ = ("name", "args", "kwargs", "site", "must", "via", "call", "owner")
+
+    def __init__(self, name, args, kwargs, site, must, via, call, owner):
+        self.name, self.args, self.kwargs, self.site, self.must, self.via, self.call, self.owner = name, args, kwargs, site, must, via, call, owner
+
+
+def call_events(ctx: TermCtx, fi: FuncInfo, pred: Callable[[str], bool], depth: int = 2, _stack=()) -> List[Event]:
+    """Calls whose callee's simple name satisfies pred, made by fi or - with parameters substituted by the
+    actual arguments - by the private helpers it calls.  `site` is the CFG node *in fi* at which the event
+    happens (the call itself, or the call of the helper that contains it); `must` says the event lies on every
+    normal path through the helper(s) between their entry and exit."""
+    from .terms import subst
+
+    model = ctx.model
+    fa = ctx.analysis(fi)
+    out: List[Event] = []
+    helpers = {g.qual: g for g in private_callees(model, fi)}
+    for c in calls_in(fi):
+        if not fa.cfg.has_node(c):
+            continue
+        f = c.func
+        nm = f.id if isinstance(f, ast.Name) else (f.attr if isinstance(f, ast.Attribute) else None)
+        node = fa.cfg.node_of(c)
+        if nm is not None and pred(nm):
+            args = tuple(strip_sites(fa.term_of(a)) for a in c.args)
+            kws = tuple((k.arg, strip_sites(fa.term_of(k.value))) for k in c.keywords)
+            out.append(Event(nm, args, kws, node, True, (), c, fi))
+        # descend into private helpers
+        g = None
+        if isinstance(f, ast.Name):
+            tgt = model.lookup_target(model.resolve_dotted(fi.module, fi, f.id))
+            g = tgt if isinstance(tgt, FuncInfo) else None
+            skip = 0
+        elif isinstance(f, ast.Attribute) and isinstance(f.value, ast.Name) and fi.cls is not None and fi.pos_params and f.value.id == fi.pos_params[0]:
+            g = model.find_method(fi.cls, f.attr)
+            skip = 0 if (g is not None and "staticmethod" in g.decorators) else 1
+        if g is None or g.qual not in helpers or depth <= 0 or g.qual in _stack:
+            continue
+        ga = ctx.analysis(g)
+        binding = {}
+        params = g.pos_params[skip:]
+        if skip:
+            binding[("param", g.pos_params[0])] = ("param", fi.pos_params[0])
+        for p_, a in zip(params, c.args):
+            binding[("param", p_)] = strip_sites(fa.term_of(a))
+        for k in c.keywords:
+            if k.arg:
+                binding[("param", k.arg)] = strip_sites(fa.term_of(k.value))
+        for ev in call_events(ctx, g, pred, depth - 1, _stack + (fi.qual,)):
+            must = ev.must and ga.cfg.postdominates(ev.site, ga.cfg.entry)
+            out.append(Event(ev.name, tuple(subst(a, binding) for a in ev.args), tuple((k, subst(v, binding)) for k, v in ev.kwargs), node, must, (g.name,) + ev.via, ev.call, ev.owner))
+    return out
